@@ -689,14 +689,17 @@ theorem applyOp_false (b : Mem) (op : MutOp) (h : (applyOp b op).2 = false) : (a
 /-- start of a process: nothing snapshotted, nothing persisted, `saveMu` free.
 Memory and the main file are arbitrary. -/
 def Init (s : PState) : Prop :=
-  s.version = 0 ∧ s.lastPersisted = 0 ∧ s.pending = [] ∧ s.inflight = none ∧ s.taken = [] ∧ s.failed = []
+  s.version = 0 ∧ s.lastPersisted = 0 ∧ s.pending = [] ∧ s.inflight = none ∧ s.taken = [] ∧ s.failed = [] ∧
+    s.dirty = false
 
 /-- the invariant of Appendix A.5 (`main0` = the main file the process started with). -/
 structure Inv (main0 : Option (List Str)) (s : PState) : Prop where
   lp_le : s.lastPersisted ≤ s.version
   taken_le : ∀ x ∈ s.taken, 1 ≤ x.version ∧ x.version ≤ s.version
-  top : s.version > 0 → ({ version := s.version, exact := s.mem.m, wild := s.mem.wild } : Snap) ∈ s.taken
-  top_unique : ∀ x ∈ s.taken, x.version = s.version → x.exact = s.mem.m ∧ x.wild = s.mem.wild
+  top_exists : s.version > 0 → ∃ x ∈ s.taken, x.version = s.version
+  top : s.dirty = false → s.version > 0 →
+      ({ version := s.version, exact := s.mem.m, wild := s.mem.wild } : Snap) ∈ s.taken
+  top_unique : s.dirty = false → ∀ x ∈ s.taken, x.version = s.version → x.exact = s.mem.m ∧ x.wild = s.mem.wild
   pending_sub : ∀ x ∈ s.pending, x ∈ s.taken
   inflight_ok : ∀ f, s.inflight = some f → f.snap ∈ s.taken ∧ s.lastPersisted < f.snap.version ∧
       f.written = (render f.snap).take f.written.length ∧
@@ -709,8 +712,8 @@ structure Inv (main0 : Option (List Str)) (s : PState) : Prop where
       x.version ≤ s.lastPersisted ∨ x.version ∈ s.failed
 
 theorem inv_init (s : PState) (h : Init s) : Inv s.main s := by
-  obtain ⟨h1, h2, h3, h4, h5, h6⟩ := h
-  refine ⟨by omega, by simp [h5], by omega, by simp [h5], by simp [h3], by simp [h4], ?_, by simp [h5]⟩
+  obtain ⟨h1, h2, h3, h4, h5, h6, _⟩ := h
+  refine ⟨by omega, by simp [h5], by omega, by intro _; omega, by simp [h5], by simp [h3], by simp [h4], ?_, by simp [h5]⟩
   intro _; exact Or.inl ⟨h2, rfl⟩
 
 theorem mem_of_mem_eraseIdx {α} (l : List α) (i : Nat) (x : α) (h : x ∈ l.eraseIdx i) : x ∈ l :=
@@ -744,15 +747,16 @@ theorem inv_mutate (m0 : Option (List Str)) (s : PState) (op : MutOp) (h : Inv m
   simp only
   by_cases hc : (applyOp s.mem op).2 = true
   · simp only [hc, if_true]
-    refine ⟨?_, ?_, ?_, ?_, ?_, ?_, ?_, ?_⟩
+    refine ⟨?_, ?_, ?_, ?_, ?_, ?_, ?_, ?_, ?_⟩
     · have := h.lp_le; simp only; omega
     · intro x hx
       simp only [List.mem_cons] at hx
       rcases hx with rfl | hx
       · simp
       · have := h.taken_le x hx; simp only; omega
-    · intro _; simp
-    · intro x hx hv
+    · intro _; exact ⟨_, List.mem_cons_self, rfl⟩
+    · intro _ _; simp
+    · intro _ x hx hv
       simp only [List.mem_cons] at hx
       rcases hx with rfl | hx
       · simp
@@ -781,7 +785,7 @@ theorem inv_mutate (m0 : Option (List Str)) (s : PState) (op : MutOp) (h : Inv m
   · have hc' : (applyOp s.mem op).2 = false := by simpa using hc
     have hm := applyOp_false s.mem op hc'
     simp only [hc', Bool.false_eq_true, if_false, hm]
-    exact ⟨h.lp_le, h.taken_le, h.top, h.top_unique, h.pending_sub, h.inflight_ok, h.file, h.accounted⟩
+    exact ⟨h.lp_le, h.taken_le, h.top_exists, h.top, h.top_unique, h.pending_sub, h.inflight_ok, h.file, h.accounted⟩
 
 theorem inv_begin (m0 : Option (List Str)) (s : PState) (i : Nat) (ok : Bool) (h : Inv m0 s) :
     Inv m0 (step s (.begin i ok)) := by
@@ -814,7 +818,7 @@ theorem inv_begin (m0 : Option (List Str)) (s : PState) (i : Nat) (ok : Bool) (h
         fun x hx => h.pending_sub x (List.mem_of_mem_eraseIdx hx)
       by_cases hstale : snap.version ≠ 0 ∧ snap.version ≤ s.lastPersisted
       · rw [if_pos hstale]
-        refine ⟨h.lp_le, h.taken_le, h.top, h.top_unique, hpsub, ?_, ?_, ?_⟩
+        refine ⟨h.lp_le, h.taken_le, h.top_exists, h.top, h.top_unique, hpsub, ?_, ?_, ?_⟩
         · intro f hf; simp only at hf; cases hf
         · intro _; exact hfile
         · intro x hx
@@ -828,7 +832,7 @@ theorem inv_begin (m0 : Option (List Str)) (s : PState) (i : Nat) (ok : Bool) (h
         cases ok with
         | true =>
           simp only [if_true]
-          refine ⟨h.lp_le, h.taken_le, h.top, h.top_unique, hpsub, ?_, ?_, ?_⟩
+          refine ⟨h.lp_le, h.taken_le, h.top_exists, h.top, h.top_unique, hpsub, ?_, ?_, ?_⟩
           · intro f hf
             simp only [Option.some.injEq] at hf
             subst hf
@@ -842,7 +846,7 @@ theorem inv_begin (m0 : Option (List Str)) (s : PState) (i : Nat) (ok : Bool) (h
             · exact Or.inr (Or.inr (Or.inr h'))
         | false =>
           simp only [Bool.false_eq_true, if_false]
-          refine ⟨h.lp_le, h.taken_le, h.top, h.top_unique, hpsub, ?_, ?_, ?_⟩
+          refine ⟨h.lp_le, h.taken_le, h.top_exists, h.top, h.top_unique, hpsub, ?_, ?_, ?_⟩
           · intro f hf; simp only at hf; cases hf
           · intro _; exact hfile
           · intro x hx
@@ -855,7 +859,7 @@ theorem inv_begin (m0 : Option (List Str)) (s : PState) (i : Nat) (ok : Bool) (h
 theorem inv_fail (m0 : Option (List Str)) (s : PState) (f : Inflight) (h : Inv m0 s)
     (hf : s.inflight = some f) (hst : f.stage ≠ .renamed) : Inv m0 (failInflight s f) := by
   unfold failInflight
-  refine ⟨h.lp_le, h.taken_le, h.top, h.top_unique, h.pending_sub, ?_, ?_, ?_⟩
+  refine ⟨h.lp_le, h.taken_le, h.top_exists, h.top, h.top_unique, h.pending_sub, ?_, ?_, ?_⟩
   · intro g hg; simp at hg
   · intro _
     exact h.file (by intro g hg; rw [hf] at hg; simp only [Option.some.injEq] at hg; rw [← hg]; exact hst)
@@ -875,7 +879,7 @@ theorem inv_update (m0 : Option (List Str)) (s : PState) (f f' : Inflight) (h : 
     (hw' : f'.stage ≠ .writing → f'.written = render f.snap) :
     Inv m0 { s with inflight := some f' } := by
   obtain ⟨a, b, _, _, _⟩ := h.inflight_ok f hf
-  refine ⟨h.lp_le, h.taken_le, h.top, h.top_unique, h.pending_sub, ?_, ?_, ?_⟩
+  refine ⟨h.lp_le, h.taken_le, h.top_exists, h.top, h.top_unique, h.pending_sub, ?_, ?_, ?_⟩
   · intro g hg
     simp only [Option.some.injEq] at hg
     subst hg
@@ -974,7 +978,7 @@ theorem inv_rename (m0 : Option (List Str)) (s : PState) (ok : Bool) (h : Inv m0
       | false => simp only [Bool.false_eq_true, if_false]; exact inv_fail m0 s f h hin hst
       | true =>
         simp only [if_true]
-        refine ⟨h.lp_le, h.taken_le, h.top, h.top_unique, h.pending_sub, ?_, ?_, ?_⟩
+        refine ⟨h.lp_le, h.taken_le, h.top_exists, h.top, h.top_unique, h.pending_sub, ?_, ?_, ?_⟩
         · intro g hg
           simp only [Option.some.injEq] at hg
           subst hg
@@ -1003,7 +1007,7 @@ theorem inv_commit (m0 : Option (List Str)) (s : PState) (h : Inv m0 s) :
     · rw [if_pos hc]
       obtain ⟨a, b, _, _, hmain⟩ := h.inflight_ok f hin
       have hle := (h.taken_le f.snap a).2
-      refine ⟨hle, h.taken_le, h.top, h.top_unique, h.pending_sub, ?_, ?_, ?_⟩
+      refine ⟨hle, h.taken_le, h.top_exists, h.top, h.top_unique, h.pending_sub, ?_, ?_, ?_⟩
       · intro g hg; simp at hg
       · intro _
         exact Or.inr ⟨f.snap, a, rfl, hmain hc⟩
@@ -1017,6 +1021,22 @@ theorem inv_commit (m0 : Option (List Str)) (s : PState) (h : Inv m0 s) :
         · exact Or.inr (Or.inr (Or.inr h'))
     · rw [if_neg hc]; exact h
 
+/-- a directory reload touches no file and no persistence bookkeeping; if it
+changes memory the state is marked dirty (the newest snapshot is no longer the
+memory) until the next snapshot. -/
+theorem inv_dirLoad (m0 : Option (List Str)) (s : PState) (h : Inv m0 s) : Inv m0 (step s .dirLoad) := by
+  unfold step
+  simp only
+  generalize hm : dirLoadMem s.mem s.main _ = mem'
+  by_cases he : mem' = s.mem
+  · rw [he]
+    simp only [ne_eq, not_true_eq_false, decide_false, Bool.or_false]
+    exact ⟨h.lp_le, h.taken_le, h.top_exists, h.top, h.top_unique, h.pending_sub, h.inflight_ok, h.file, h.accounted⟩
+  · have hd : (s.dirty || decide (mem' ≠ s.mem)) = true := by simp [he]
+    refine ⟨h.lp_le, h.taken_le, h.top_exists, ?_, ?_, h.pending_sub, h.inflight_ok, h.file, h.accounted⟩
+    · intro hdirty; simp only [hd] at hdirty; cases hdirty
+    · intro hdirty; simp only [hd] at hdirty; cases hdirty
+
 theorem inv_step (m0 : Option (List Str)) (s : PState) (st : Step) (h : Inv m0 s) : Inv m0 (step s st) := by
   cases st with
   | mutate op => exact inv_mutate m0 s op h
@@ -1026,6 +1046,7 @@ theorem inv_step (m0 : Option (List Str)) (s : PState) (st : Step) (h : Inv m0 s
   | close ok => exact inv_close m0 s ok h
   | rename ok => exact inv_rename m0 s ok h
   | commit => exact inv_commit m0 s h
+  | dirLoad => exact inv_dirLoad m0 s h
 
 theorem inv_run (m0 : Option (List Str)) (s : PState) (steps : List Step) (h : Inv m0 s) : Inv m0 (run s steps) := by
   induction steps generalizing s with
